@@ -42,6 +42,40 @@ pub struct Case {
     /// the write connection is held while arrivals [hold_from, hold_from+hold_len) are pushed
     pub hold_from: u8,
     pub hold_len: u8,
+    /// offer only sync answers (the origin's *current* view: Empties for versions it overwrote since), never the
+    /// original broadcasts of those versions
+    #[serde(default)]
+    pub sync_only: bool,
+}
+
+/// Three origins keep overwriting the same few rows (every earlier version ends up empty at its origin), then each
+/// writes one large version; the receiver is offered the origins' current view only: Empties of several different
+/// ranges and many short chunks of the large versions - about twice as many distinct ones as the five ingest jobs and
+/// the queue take together - all while its write connection is held.  Whatever is shed, Empties included, must be
+/// taken up when it is offered again.  The queue is longer than the number of distinct (actor, version) keys, so the
+/// node's duplicate-suppression cache is not flushed wholesale in between.
+pub fn shed_empties_strategy(max_arrivals: usize) -> impl Strategy<Value = Case> {
+    let per_origin = || {
+        (
+            proptest::collection::vec((0u8..2, any::<u16>()), 2..5),
+            (any::<u16>(), any::<u16>(), 0u8..3, 0u8..3),
+            proptest::collection::vec((any::<u8>(), any::<u8>()), 3..7),
+            proptest::collection::vec(proptest::collection::vec((any::<u8>(), 0u8..160), 1..3), 24..40),
+        )
+    };
+    (22u8..=26, 1u8..=2, proptest::collection::vec(per_origin(), 3), proptest::collection::vec(any::<u16>(), 150..=max_arrivals.max(151)), 0u8..3).prop_map(|(queue_len, apply_len, origins, arrivals, hold_from)| {
+        let mut txs: Vec<(u8, Vec<Stmt>)> = vec![];
+        let mut cuts: Vec<(u8, NeedSpec)> = vec![];
+        for (o, (small, (t1, t2, k1, k2), fulls, partials)) in origins.into_iter().enumerate() {
+            let o = o as u8;
+            let n_small = small.len();
+            txs.extend(small.into_iter().map(|(key, tag)| (o, vec![Stmt::UpsertKv { key, tag }])));
+            txs.push((o, vec![Stmt::MultiKv { n: 5, tag: t1 }, Stmt::UpsertBig { key: k1, size_class: 2, tag: t2 }, Stmt::UpsertBig { key: k2, size_class: 3, tag: t1 }, Stmt::UpsertBig { key: (k2 + 1) % 3, size_class: 2, tag: t2 }]));
+            cuts.extend(fulls.into_iter().map(|(from, len)| (o, NeedSpec::Full { from, len })));
+            cuts.extend(partials.into_iter().map(|ranges| (o, NeedSpec::Partial { ver: n_small as u8, ranges })));
+        }
+        Case { origins: 3, queue_len, apply_len, chan_len: 8, txs, cuts, arrivals, hold_from, hold_len: 255, sync_only: true }
+    })
 }
 
 fn tx_strategy() -> impl Strategy<Value = Vec<Stmt>> {
@@ -67,7 +101,7 @@ pub fn case_strategy(max_arrivals: usize) -> impl Strategy<Value = Case> {
         any::<u8>(),
         any::<u8>(),
     )
-        .prop_map(|(origins, queue_len, apply_len, chan_len, txs, cuts, arrivals, hold_from, hold_len)| Case { origins, queue_len, apply_len, chan_len, txs, cuts, arrivals, hold_from, hold_len })
+        .prop_map(|(origins, queue_len, apply_len, chan_len, txs, cuts, arrivals, hold_from, hold_len)| Case { origins, queue_len, apply_len, chan_len, txs, cuts, arrivals, hold_from, hold_len, sync_only: false })
 }
 
 /// few distinct (actor, version) keys, many chunks of them, a queue a little longer than the number
@@ -95,6 +129,7 @@ pub fn few_keys_strategy(max_arrivals: usize) -> impl Strategy<Value = Case> {
             arrivals,
             hold_from,
             hold_len,
+            sync_only: false,
         })
 }
 
@@ -173,9 +208,14 @@ async fn run_case(case: &Case, info: &mut CaseInfo, root: std::path::PathBuf) ->
     let tx_changes = w.nodes[r].agent.tx_changes().clone();
 
     // arrival sequence under (partial) overload
-    let ids: Vec<usize> = case.arrivals.iter().map(|p| crate::common::idx(*p, w.pool.len())).collect();
+    let candidates: Vec<usize> = (0..w.pool.len()).filter(|i| !case.sync_only || w.pool[*i].via_sync).collect();
+    if candidates.is_empty() {
+        info.skipped_ops += 1;
+        return Ok(());
+    }
+    let ids: Vec<usize> = case.arrivals.iter().map(|p| candidates[crate::common::idx(*p, candidates.len())]).collect();
     let hold_from = case.hold_from as usize % ids.len();
-    let hold_to = (hold_from + 1 + case.hold_len as usize % ids.len()).min(ids.len());
+    let hold_to = if case.sync_only { ids.len() } else { (hold_from + 1 + case.hold_len as usize % ids.len()).min(ids.len()) };
     let mut held = None;
     let mut offered: Vec<usize> = vec![];
     let mut offered_kinds: std::collections::BTreeMap<(usize, u64), (bool, bool)> = Default::default();
@@ -270,6 +310,12 @@ async fn run_case(case: &Case, info: &mut CaseInfo, root: std::path::PathBuf) ->
         );
         rounds += 1;
         info.class("needed-a-re-offer-round");
+        // Empties first (any order of re-offers is a fair one; the markers of this loop add keys to the node's
+        // duplicate-suppression cache, which is flushed wholesale once it outgrows the queue length)
+        missing.sort_by_key(|id| !matches!(w.pool[*id].change.changeset, Changeset::Empty { .. }));
+        if missing.iter().any(|id| matches!(w.pool[*id].change.changeset, Changeset::Empty { .. })) {
+            info.class("shed-empty-offered-again");
+        }
         for id in &missing {
             let change = w.pool[*id].change.clone();
             tx_changes.send((change, ChangeSource::Sync)).await.map_err(|e| Fail::infra(format!("tx_changes closed: {e}")))?;
@@ -331,6 +377,7 @@ pub fn run(ctx: &Ctx, rep: &mut Report) {
     };
     run_prop(ctx, rep, "overload", case_strategy(arrivals), n, 100, check);
     run_prop(ctx, rep, "few-keys", few_keys_strategy(arrivals + 10), n, 100, check);
+    run_prop(ctx, rep, "shed-empties", shed_empties_strategy(220), n / 2, 100, check);
 }
 
 pub fn replay(_sub: &str, case: &serde_json::Value) -> Result<CaseInfo, Fail> {
